@@ -20,7 +20,9 @@ fn strings(alpha: &[&str], max: usize) -> Vec<String> {
     out
 }
 /// run one grammar over all strings; returns (cases, accepted, first failure)
+fn extra() -> usize { std::env::var("VERIF_NB_EXTRA").ok().and_then(|x| x.parse().ok()).unwrap_or(0) }
 fn sweep<F: Fn(&str) -> Result<Option<usize>, &'static str>>(name: &str, alpha: &[&str], max: usize, f: F) -> bool {
+    let max = max + extra();
     let mut cases = 0u64;
     let mut acc = 0u64;
     for s in strings(alpha, max) {
